@@ -159,6 +159,8 @@ def build_program(states, rng, per_sig=6, kinds=("function",), max_sigs=None):
             base.update(verbose=11, store="_V11")
         elif n % 6 == 1:
             base.update(verbose=1, store="_V1")          # the default verbosity
+        elif n % 6 == 3:
+            base.update(store="_USER")                   # a user-registered store backend
         if n % 4 == 2 and kind == "function":
             base.update(pickled=True)                    # the wrapper went through pickle
         for st in chosen:
